@@ -95,6 +95,21 @@ func newEnvBoth(connectOnly, both bool) *env {
 	return e
 }
 
+// wear: long-lived connections - before the messages of the case arrive, the connections of the announced
+// (subscribed) peers have carried 100 notifications already (the application changed its measurement data 100 times).
+func (e *env) wear() {
+	f := gen.ByFunction(model.FunctionTypeMeasurementListData)
+	for i := 0; i < 100; i++ {
+		e.meas.SetData(f.Fn, refmodel.Payload(f, []reflect.Value{mkItem(f, uint64(i%2)), mkItem(f, 2)}))
+	}
+	e.meas.SetData(f.Fn, refmodel.Payload(f, []reflect.Value{mkItem(f, 0), mkItem(f, 1)}))
+	e.w.Sync()
+	for _, p := range e.w.Peers {
+		p.Cap.Drain()
+	}
+	e.w.Events.Drain()
+}
+
 func mkItem(f *gen.Func, id uint64) reflect.Value {
 	it := reflect.New(f.ItemType).Elem()
 	for _, k := range f.KeyFields {
@@ -498,6 +513,7 @@ type caseLog struct {
 	Early    bool     `json:"first_peer_before_discovery"`
 	Both     bool     `json:"both_peers_before_discovery"`
 	Gone     bool     `json:"first_peer_connection_removed"`
+	Worn     bool     `json:"connections_carried_100_notifications"`
 }
 
 func (c *caseLog) save() {
@@ -626,6 +642,10 @@ func mutatedProp(t *rapid.T) {
 		defer e.w.Teardown()
 		n := rapid.IntRange(1, 5).Draw(t, "messages")
 		log := &caseLog{Test: "TestMutatedMessages", Early: early, Both: both, Gone: gone}
+		if log.Worn = rapid.IntRange(0, 7).Draw(t, "longLivedConnections") == 0; log.Worn {
+			e.wear()
+			world.Label("env/connections-carried-100-notifications")
+		}
 		if gone {
 			world.Label("env/first-peer-connection-removed")
 		}
@@ -687,6 +707,9 @@ func TestReplayCase(t *testing.T) {
 	}
 	e := newEnvBoth(log.Early, log.Both)
 	defer e.w.Teardown()
+	if log.Worn {
+		e.wear()
+	}
 	if v := runCase(e, &log); v != nil {
 		world.Fail(t, v.sig, "%s", v.detail)
 	}
